@@ -9,7 +9,7 @@ sh ./setup.sh >/dev/null 2>&1
 for d in seeded/*/; do
   s=$(basename $d); id=${s%%-*}
   git -C $REPO checkout -q -- . ; git -C $REPO clean -fdq
-  if ! git -C $REPO apply $d/patch.diff 2>/dev/null; then echo "$s PATCH-DOES-NOT-APPLY"; continue; fi
+  if ! git -C $REPO apply "$(pwd)/$d/patch.diff" 2>/dev/null; then echo "$s PATCH-DOES-NOT-APPLY"; continue; fi
   ./check $id quick > /tmp/sweep.$$.log 2>&1; rc=$?
   echo "$s exit=$rc $(grep -a 'signature:' /tmp/sweep.$$.log | sort -u | head -3 | tr -s ' ' | tr '\n' ';' | cut -c1-200)"
   git -C $REPO checkout -q -- . ; git -C $REPO clean -fdq
